@@ -5,6 +5,8 @@
 From Coq Require Import NArith List Bool Arith.
 From LC Require Import Base.Lib Gen.Editor_gen Model.Composition Model.Conversion Model.Editor Model.EditorRun Model.EdInst
      Proofs.CompositionProofs Proofs.EditorInv Proofs.EditorFrames Proofs.EdInstProofs.
+From Coq Require Import ZArith.
+From LC Require Import Gen.Keyboard_gen Model.CapiKeys Model.CapiConfig Model.CapiRun Proofs.CapiKeysProofs Proofs.CapiInv Proofs.EngineTiles.
 Import ListNotations.
 Open Scope nat_scope.
 
@@ -120,3 +122,29 @@ Example C05_nonvacuous :
   (forall d f, md_ok d -> do_lookup md_ops d f [] = []) /\
   md_ok (mkMD [([2560%N], [20007%N], 2004%N, 0%N)] [] []).
 Proof. split; [exact md_ok_lookup | split; repeat constructor; discriminate]. Qed.
+
+(* ---- through the C API (Model/CapiKeys.v, CapiConfig.v, CapiRun.v: the key-entry, candidate, configuration and
+   user-phrase calls over the editor with all layouts and the modelled engines, system dictionary = a trie file) ----
+   After EVERY sequence of C calls with ANY int arguments on a fresh context:
+   0 <= chewing_cursor_Current <= chewing_buffer_Len. *)
+Theorem C05_cursor_Current_within_buffer_Len_after_any_C_calls : forall ss d ab t0 ops c',
+  ss_good ss -> ss_cursor ss = None -> md_fine d -> Forall cop_fine ops ->
+  crun mf_conv (cx_init d ab ss t0) ops = Ok c' ->
+  (0 <= chewing_cursor_Current c' <= chewing_buffer_Len c')%Z.
+Proof.
+  intros ss d ab t0 ops c' Hg Hf Hd Hops H.
+  apply (cinv_cursor ss). exact (crun_inv mf_conv mf_conv_tiles ss Hg Hf ops (cx_init d ab ss t0) c' Hops (cx_init_inv ss d ab t0 Hg Hf Hd) H).
+Qed.
+Print Assumptions C05_cursor_Current_within_buffer_Len_after_any_C_calls.
+
+(* non-vacuity: Hsu by number, `a` Space (the syllable c), `a` Space again, Left: cursor 1 of 2 *)
+Definition c05_dict : memdict := mkMD (bt_insert ([10240], [27425], 10, 0) [])%N [] [].
+Definition c05_history : list cop := [CSetKBType 1; CDefault 97; CHandle kcSpace 0; CDefault 97; CHandle kcSpace 0; CHandle kcLeft 0]%Z.
+Example C05_c_history_example :
+  md_fine c05_dict /\ Forall cop_fine c05_history /\
+  exists c, crun mf_conv (cx_init c05_dict [] ss_empty 0%N) c05_history = Ok c /\ chewing_cursor_Current c = 1%Z /\ chewing_buffer_Len c = 2%Z.
+Proof.
+  split; [split; vm_compute; repeat constructor; intro; discriminate|]. split.
+  - repeat (apply Forall_cons; [first [exact I | split; vm_compute; reflexivity]|]). apply Forall_nil.
+  - vm_compute. eexists. repeat split.
+Qed.
